@@ -59,6 +59,11 @@ CHECKS = {
          "All 64 call graphs on 3 applications (thorough: all 4096 on 4) with calls rotating through every statement kind, each with every human mark, every listed subset, every exclude subset and every passthrough subset (cyclic pass-through chains included), in plain, clustered and EPA views: generation must terminate; every DepsOut entry and every drawn arrow must correspond to a call and touch no excluded application; every call from a listed application to a different, non-excluded, non-human application through a non-hidden endpoint must be drawn.",
          "arrows read from component-diagram text and IntsBuilder.DepsOut; EPA view checked for termination and DepsOut only",
          "DESIGN.md §4 C14"),
+ "C15": ("exploration",
+         "bounded-exhaustive data-model enumeration through the real generator; PlantUML class reader compared with the model's type graph (classes, fields, relationship multiset)",
+         "Every model of the alphabet (owner type as tuple or table with two fields over 13 descriptors, second type of every kind, cross-application type with distinct / colliding names, dotted nested type) is rendered as whole-model and per-application diagram: exactly one class per covered type with a unique alias, every field listed with a matching type marker, exactly one relationship line per referring field to a drawn type and none otherwise. Map iteration order is pinned (C19 varies it).",
+         "coverage = tuples, tables, primitive aliases, enums; self references not asserted; field types compared by kind marker",
+         "DESIGN.md §4 C15"),
  "C17": ("exploration",
          "bounded-exhaustive model set (corpus, generated families, return-payload sweep, complete deep statement trees) through the real relmod.Normalize, compared row-for-row (as multisets) with an independent census of the module; repeated run compared",
          "For every model the relational schema must either be refused with an error or contain exactly the census rows: applications, mixins, endpoints, events, parameters (index, location, type, optionality), statements with their position path, types, table keys, fields (type, optionality, constraints), enums, aliases, views, annotations and tags of every element; a second run must give the same relations.",
